@@ -9,9 +9,7 @@
      analog  = self.read(nsel, csel=analog_indices, sync=False)
    integer selector: the sample axis is dropped; `_raw[i, [w]]` is the 1-D
    vector of the sample's word(s) and split_sync still returns one row per
-   word; the analog part is 1-D when the percentile floor is computed (one
-   floor pooled over the k analog channels of that sample — faithful; known
-   finding F-C10-g) and is made a (1, k) row afterwards. *)
+   word; the analog part is made a (1, k) row (np.atleast_2d) before the floor. *)
 From Coq Require Import ZArith List Bool Lia.
 From IBL.lib Require Import PyInt.
 From IBL.C01 Require Model.
@@ -24,25 +22,11 @@ Open Scope Z_scope.
 Definition read_sync_sel (typ ntr c0 c1 c2 c3 : Z) (s : IBL.C01.Model.sel) (one thr gain : Z) (use_floor : bool)
   (raw : list (list Z)) : option (list (list Z)) :=
   match IBL.C01.Model.np_index1 raw s with
-  | IBL.C01.Model.Err _ => None                                   (* IndexError / ValueError (slice step 0) *)
-  | IBL.C01.Model.Ok (dropped, rows) =>
-      let n := Z.of_nat (length rows) in
-      if dropped then
-        match analog_indices typ c0 c1 c2 c3 with
-        | [] => read_sync typ ntr c0 c1 c2 c3 0 n one thr gain use_floor rows
-        | idx =>
-            (* the analog vector of the one sample is 1-D when the floor is taken: np.percentile(.., axis=0)
-               pools the k channels of that sample into ONE floor; np.atleast_2d then makes it a row
-               (repair ccd27fe; before it the concatenation raised) *)
-            match read_sync_digital typ ntr c0 c1 c2 c3 0 n rows,
-                  read_sync_analog typ ntr c0 c1 c2 c3 0 n gain rows with
-            | Some dg, Some (Some [v]) =>
-                let floors := if use_floor then Some (repeat (pct10x v) (length v)) else None in
-                hconcat dg [digitise_row (10 * one) (10 * thr) 10 floors v]
-            | _, _ => None
-            end
-        end
-      else read_sync typ ntr c0 c1 c2 c3 0 n one thr gain use_floor rows
+  | IBL.C01.Model.Err _ => None                        (* IndexError / ValueError (slice step 0) *)
+  | IBL.C01.Model.Ok (_, rows) =>
+      (* whether the selector dropped the sample axis does not matter any more (repairs ccd27fe,
+         bb56ef1): the analog vector of an integer selector is made a (1, k) row BEFORE the floor *)
+      read_sync typ ntr c0 c1 c2 c3 0 (Z.of_nat (length rows)) one thr gain use_floor rows
   end.
 
 (* Reader.read(nsel, ...)[1] = read_sync(nsel) with the defaults *)
@@ -95,7 +79,6 @@ Lemma read_sync_sel_layout typ ntr c0 c1 c2 c3 s one thr gain use_floor raw d ro
   (forall r, In r raw -> Z.of_nat (length r) = ntr) ->
   (forall i, In i (analog_indices typ c0 c1 c2 c3) -> 0 <= i < ntr) ->
   IBL.C01.Model.np_index1 raw s = IBL.C01.Model.Ok (d, rows) ->
-  (d = false \/ analog_indices typ c0 c1 c2 c3 = []) ->
   let floors := floors_of use_floor (analog_volts typ c0 c1 c2 c3 gain rows)
                           (length (analog_indices typ c0 c1 c2 c3)) in
   read_sync_sel typ ntr c0 c1 c2 c3 s one thr gain use_floor raw =
@@ -104,15 +87,12 @@ Lemma read_sync_sel_layout typ ntr c0 c1 c2 c3 s one thr gain use_floor raw d ro
                            (map (fun v => v * gain) (analog_cols typ c0 c1 c2 c3 r)))
             rows).
 Proof.
-  intros Hns Hntr Hrect Hidx Hsel Hd floors.
+  intros Hns Hntr Hrect Hidx Hsel floors.
   assert (Hrect' : forall r, In r rows -> Z.of_nat (length r) = ntr)
     by (intros r Hr; apply Hrect; eapply np_index1_in; eauto).
   pose proof (read_sync_layout_total typ ntr c0 c1 c2 c3 0 (Z.of_nat (length rows)) one thr gain use_floor rows
                 Hns Hntr Hrect' Hidx) as HL. cbv zeta in HL. rewrite slice_rows_all in HL.
-  unfold read_sync_sel. rewrite Hsel.
-  destruct d.
-  - destruct Hd as [Hd|Hd]; [discriminate|]. unfold floors. revert HL. rewrite Hd. intros HL. exact HL.
-  - exact HL.
+  unfold read_sync_sel. rewrite Hsel. exact HL.
 Qed.
 
 (* Without analog sync channels (every imec file): the rows returned for a
@@ -135,7 +115,7 @@ Proof.
   pose proof (read_sync_layout typ ntr c0 c1 c2 c3 0 (Z.of_nat (length raw)) one thr gain use_floor raw
                 Hns Hntr Hrect Hidx Hfl0) as HL. cbv zeta in HL. rewrite slice_rows_all in HL.
   pose proof (read_sync_sel_layout typ ntr c0 c1 c2 c3 s one thr gain use_floor raw d rows
-                Hns Hntr Hrect Hidx Hsel (or_intror Hno)) as HS. cbv zeta in HS.
+                Hns Hntr Hrect Hidx Hsel) as HS. cbv zeta in HS.
   assert (Hdig : forall fl r, digitise_row (10 * one) (10 * thr) 10 fl
                    (map (fun v => v * gain) (analog_cols typ c0 c1 c2 c3 r)) = []).
   { intros fl r. unfold analog_cols. rewrite Hno. reflexivity. }
@@ -148,4 +128,36 @@ Proof.
   rewrite HLF in Hfull. apply some_inj in Hfull. subst full.
   exists (map F rows). split; [exact HSF|]. split; [|apply map_length].
   apply np_index1_map. exact Hsel.
+Qed.
+
+(* the result depends on the selected rows only: selectors that pick the same samples give the same rows *)
+Lemma read_sync_sel_same_rows typ ntr c0 c1 c2 c3 s1 s2 one thr gain use_floor raw d1 d2 rows :
+  IBL.C01.Model.np_index1 raw s1 = IBL.C01.Model.Ok (d1, rows) ->
+  IBL.C01.Model.np_index1 raw s2 = IBL.C01.Model.Ok (d2, rows) ->
+  read_sync_sel typ ntr c0 c1 c2 c3 s1 one thr gain use_floor raw =
+  read_sync_sel typ ntr c0 c1 c2 c3 s2 one thr gain use_floor raw.
+Proof. intros H1 H2. unfold read_sync_sel. now rewrite H1, H2. Qed.
+
+(* an integer selector and the one-element list pick the same sample *)
+Lemma np_index1_int_list {A} (l : list A) i :
+  match IBL.C01.Model.np_index1 l (IBL.C01.Model.SInt i), IBL.C01.Model.np_index1 l (IBL.C01.Model.SList [i]) with
+  | IBL.C01.Model.Ok (_, r1), IBL.C01.Model.Ok (_, r2) => r1 = r2
+  | IBL.C01.Model.Err _, IBL.C01.Model.Err _ => True
+  | _, _ => False
+  end.
+Proof.
+  unfold IBL.C01.Model.np_index1, IBL.C01.Model.sel_positions. cbn [IBL.C01.Model.mapM].
+  destruct (IBL.C01.Model.norm_index (IBL.C01.Model.zlen l) i) as [k|]; cbn [IBL.C01.Model.bind]; [|exact I].
+  destruct (IBL.C01.Model.gather l [k]); cbn; auto.
+Qed.
+
+Lemma read_sync_sel_int_list typ ntr c0 c1 c2 c3 i one thr gain use_floor raw :
+  read_sync_sel typ ntr c0 c1 c2 c3 (IBL.C01.Model.SInt i) one thr gain use_floor raw =
+  read_sync_sel typ ntr c0 c1 c2 c3 (IBL.C01.Model.SList [i]) one thr gain use_floor raw.
+Proof.
+  unfold read_sync_sel. pose proof (np_index1_int_list raw i) as H.
+  destruct (IBL.C01.Model.np_index1 raw (IBL.C01.Model.SInt i)) as [[d1 r1]|e1];
+    destruct (IBL.C01.Model.np_index1 raw (IBL.C01.Model.SList [i])) as [[d2 r2]|e2]; try contradiction.
+  - now subst.
+  - reflexivity.
 Qed.
